@@ -52,6 +52,11 @@ func genSess(r *rand.Rand, recv, ws bool) sessSpec {
 // returns the library's raw output.  The initiator negotiates no features
 // (or r1 + r3-like m after a restart); the receiver offers m.
 func runSess(c *core.Case, sp sessSpec, f bufconn.Fault) (out []byte, s *xmpp.Session, err error, panicked bool) {
+	out, _, s, err, panicked = runSessMarks(c, sp, f)
+	return
+}
+
+func runSessMarks(c *core.Case, sp sessSpec, f bufconn.Fault) (out []byte, marks []int, s *xmpp.Session, err error, panicked bool) {
 	ws := sp.WS
 	var fs []xmpp.StreamFeature
 	if sp.Restart {
@@ -96,7 +101,7 @@ func runSess(c *core.Case, sp sessSpec, f bufconn.Fault) (out []byte, s *xmpp.Se
 			return xmpp.NewSession(ctx, sp.location, sp.origin, conn, stateOf(sp.S2S), negotiator(ws, sp.Lang, fs...))
 		})
 	}
-	return conn.Written(), s, err, panicked
+	return conn.Written(), conn.WriteMarks(), s, err, panicked
 }
 
 func opener(ws bool) []byte {
@@ -126,8 +131,12 @@ func headerOffsets(out []byte, ws bool) []int {
 }
 
 // judgeWhole examines a fault-free session's complete output from offset 0.
-func judgeWhole(c *core.Case, where string, out []byte, sp sessSpec, wantHeaders int, tail []string) {
-	c.Count("headers_checked_after_failed_write", 1)
+func judgeWhole(c *core.Case, where string, out []byte, sp sessSpec, wantHeaders int, tail []string, after bool) {
+	if after {
+		c.Count("headers_checked_after_failed_write", 1)
+	} else {
+		c.Count("whole_outputs_checked_fault_free", 1)
+	}
 	want := emitWant{WS: sp.WS, NS: nsOf(sp.S2S), Lang: sp.Lang}
 	if sp.Recv {
 		want.From, want.To, want.AnyID = sp.Location, sp.Origin, true
@@ -191,7 +200,7 @@ func afterFailedWrite(c *core.Case) {
 	a := genSess(r, r.Intn(2) == 0, r.Intn(3) == 0)
 	a.Restart = r.Intn(2) == 0
 	// dry run: where do this session's headers start, and which Write calls carry them?
-	out, _, err, p := runSess(c, a, bufconn.NoFault())
+	out, marks, _, err, p := runSessMarks(c, a, bufconn.NoFault())
 	if p {
 		return
 	}
@@ -201,19 +210,32 @@ func afterFailedWrite(c *core.Case) {
 		c.Inconclusive("after-failed-write: fault-free run of the first session failed (%v) or wrote %d header(s), want %d: %q", err, len(offs), wantH, trunc(out, 300))
 		return
 	}
-	judgeWholeQuiet(c, "fault-free first session", out, a, wantH, tail)
+	judgeWhole(c, "fault-free first session", out, a, wantH, tail, false)
+	if c.Violated() {
+		return
+	}
 	// the header whose write fails: the last one (the restart header when there is one)
 	start := offs[len(offs)-1]
 	end := start + len(out[start:]) - len(afterHeader(out[start:]))
 	f := bufconn.NoFault()
 	mode := "break"
-	if r.Intn(2) == 0 {
+	switch r.Intn(3) {
+	case 0:
+		// the write side breaks somewhere inside the header
 		f.WriteBreakAfter = start + r.Intn(end-start)
-	} else {
+	case 1:
+		// nothing of the header gets through and the write side stays broken
+		mode = "break-at-start"
+		f.WriteBreakAfter = start
+	default:
+		// exactly the Write call that carries the header fails
 		mode = "fail"
-		conn := bufconn.NewScripted(nil)
-		_ = conn
-		f.WriteBreakAfter = start // nothing of the header gets through
+		for i, m := range marks {
+			if m > start {
+				f.FailWrite = i + 1
+				break
+			}
+		}
 	}
 	b1 := genSess(r, !a.Recv, a.WS)
 	b2 := genSess(r, a.Recv, !a.WS)
@@ -221,7 +243,7 @@ func afterFailedWrite(c *core.Case) {
 	b3.Restart = true
 	dTo, dFrom, dLang, dID := genJID(r, true, r.Intn(3)).String(), genJID(r, false, 0).String(), pick(r, langs), pick(r, safeIDs)
 	dWS := r.Intn(2) == 0
-	c.Sample(map[string]any{"part": "after-failed-write", "failing": a, "fault": mode, "break_after": f.WriteBreakAfter, "header_range": []int{start, end},
+	c.Sample(map[string]any{"part": "after-failed-write", "failing": a, "fault": mode, "break_after": f.WriteBreakAfter, "fail_write": f.FailWrite, "header_range": []int{start, end},
 		"then_direct": map[string]any{"ws": dWS, "to": dTo, "from": dFrom, "lang": dLang, "id": dID}, "then_sessions": []sessSpec{b1, b2, b3}})
 
 	_, sa, ea, p := runSess(c, a, f)
@@ -229,7 +251,7 @@ func afterFailedWrite(c *core.Case) {
 		return
 	}
 	if ea == nil || ready(sa) {
-		c.Violate("hdr:emit:write-error-lost", "the write of a stream header failed (%s at byte %d of the output) but the constructor returned error=%v Ready=%v", mode, f.WriteBreakAfter, ea, ready(sa))
+		c.Violate("hdr:emit:write-error-lost", "the write of a stream header failed (%s, header at bytes %d-%d of the output) but the constructor returned error=%v Ready=%v", mode, start, end, ea, ready(sa))
 		return
 	}
 	c.Count("header_write_failed", 1)
@@ -279,7 +301,7 @@ func afterFailedWrite(c *core.Case) {
 			judgeEmitted(c, where, out, wantOf(b), false)
 		} else {
 			c.Count("sessions_after_failed_write_established", 1)
-			judgeWhole(c, where, out, b, wh, tl)
+			judgeWhole(c, where, out, b, wh, tl, true)
 		}
 		if c.Violated() {
 			return
@@ -295,12 +317,4 @@ func wantOf(sp sessSpec) emitWant {
 		w.To, w.From = sp.Location, sp.Origin
 	}
 	return w
-}
-
-// judgeWholeQuiet applies judgeWhole without counting it as a check that
-// followed a failed write.
-func judgeWholeQuiet(c *core.Case, where string, out []byte, sp sessSpec, wantHeaders int, tail []string) {
-	judgeWhole(c, where, out, sp, wantHeaders, tail)
-	c.Count("headers_checked_after_failed_write", -1)
-	c.Count("whole_outputs_checked_fault_free", 1)
 }
